@@ -211,6 +211,9 @@ func CreateLossItvls(pattern string) (LossItvls, error) {
 				return LossItvls{}, fmt.Errorf("invalid loss pattern %q", pattern)
 			}
 			dur = dur*10 + int(digit)
+			if dur > maxTimeS { // Also keeps the sum of all durations (the cycle) from overflowing to zero
+				return LossItvls{}, fmt.Errorf("too long interval in loss pattern %q", pattern)
+			}
 		}
 	}
 	if state != lossUnknown {
